@@ -633,6 +633,11 @@ func Gen(r *rand.Rand, o GenOpts) []string {
 	if r.Intn(f4rate) == 0 {
 		lflags |= 4
 	}
+	// flag 16: the epoch DB producer hands out ONE persistent database per epoch name (Close keeps the data, Drop
+	// erases it) instead of a fresh anonymous one per call: matters for a Reset to the CURRENT epoch
+	if r.Intn(map[string]int{"C09": 2, "C08": 2}[o.Mix]+2) < 2 && (o.Mix == "C09" || o.Mix == "C08" || r.Intn(2) == 0) {
+		lflags |= 16
+	}
 	if lmode != 0 || lflags != 0 {
 		add("L", fmt.Sprint(lmode), fmt.Sprint(ln), fmt.Sprint(lflags))
 	}
